@@ -94,8 +94,8 @@ Print Assumptions value_types_keep_ranked.
        [[method]r.m], [[static]r.m]; [member_fn_ok] says: a method's parameters are [self: borrow<r>] followed by
        the declared names, a static's and a constructor's are exactly the declared names (no [self]), and a
        constructor returns [own<r>]. *)
-Theorem method_names : forall l i ms l',
-  resource_decl l i ms = DOk l' ->
+Theorem method_names : forall dup l i ms l',
+  resource_decl dup l i ms = DOk l' ->
   let n := nm i in
   let r := mkid (t_tag (l_types l)) (length (t_resources (l_types l))) in
   frame (l_types l) (l_types l') /\
@@ -108,8 +108,8 @@ Proof. exact resource_decl_spec. Qed.
 Print Assumptions method_names.
 
 (** resources and the other item declarations inside a body against [den_decl] *)
-Theorem item_decls_denote : forall l b d l',
-  Rloc l b -> item_type_decl l d = DOk l' ->
+Theorem item_decls_denote : forall dup l b d l',
+  Rloc l b -> item_type_decl dup l d = DOk l' ->
   aext (l_types l) (l_types l') /\ exists b', den_decl b d = Some b' /\ Rloc l' b'.
 Proof. exact item_type_decl_sim. Qed.
 Print Assumptions item_decls_denote.
